@@ -103,6 +103,9 @@ fn fail(out: &mut RunOut, key: &str, text: String) {
 struct Knobs {
     zero: bool,
     fixed: Option<usize>,
+    /// a retry interval so large that its expiry cannot be delivered (Duration::MAX, values that overflow Instant + d):
+    /// no tick events; a call left waiting for that timer while an execution may still be started is a legal end
+    far: Option<Duration>,
 }
 
 
@@ -123,7 +126,7 @@ fn one_execution_k(m: usize, ties: bool, ch: &mut Chooser, knobs: Knobs) -> RunO
                 async move { rx.await.expect("harness dropped a sender") }
             };
             let mut ex = vasync::Exec::new();
-            let (main, slot) = ex.spawn_with_output("execute", scylla::verif::exec::speculative_execute(m, if knobs.zero { Duration::ZERO } else { INTERVAL }, generator));
+            let (main, slot) = ex.spawn_with_output("execute", scylla::verif::exec::speculative_execute(m, match knobs.far { Some(d) => d, None if knobs.zero => Duration::ZERO, None => INTERVAL }, generator));
             let mut model = SpecModel::new(m);
             let mut timer_dead = false;
             if knobs.zero {
@@ -131,9 +134,12 @@ fn one_execution_k(m: usize, ties: bool, ch: &mut Chooser, knobs: Knobs) -> RunO
                 while model.tick() == 1 {}
                 timer_dead = true;
             }
-            let tick_cap = m + 3;
+            let tick_cap = m.saturating_add(3);
             let mut first = true;
             let mut after_tie: Option<usize> = knobs.fixed;
+            if knobs.far.is_some() {
+                timer_dead = true;
+            }
             loop {
                 if let Err(e) = ex.run_until_quiescent_default(10_000).await {
                     fail(out, "spec:livelock", e);
@@ -151,8 +157,8 @@ fn one_execution_k(m: usize, ties: bool, ch: &mut Chooser, knobs: Knobs) -> RunO
                     out.trace.push(format!("  -> t={} started={n_started} done={}", now_ms(), ex.is_done(main)));
                 }
                 out.started = n_started;
-                if n_started > 1 + m {
-                    fail(out, "spec:started-exceeds-bound", format!("{n_started} executions started with max speculative count {m} (bound {})", 1 + m));
+                if n_started > m.saturating_add(1) {
+                    fail(out, "spec:started-exceeds-bound", format!("{n_started} executions started with max speculative count {m} (bound {})", m.saturating_add(1)));
                     return;
                 }
                 if n_started > model.started {
@@ -211,6 +217,11 @@ fn one_execution_k(m: usize, ties: bool, ch: &mut Chooser, knobs: Knobs) -> RunO
                         }
                     }
                 }
+                if evs.is_empty() && knobs.far.is_some() && model.may_start() {
+                    out.trace.push("  (waits for the far-future timer; nothing else can happen)".into());
+                    out.result_kind = "waiting-for-far-timer".into();
+                    return;
+                }
                 if evs.is_empty() {
                     fail(out, "spec:deadlock", format!("the call is pending with nothing running and no timer armed (started={n_started}, may_start={})", model.may_start()));
                     return;
@@ -231,10 +242,32 @@ fn one_execution_k(m: usize, ties: bool, ch: &mut Chooser, knobs: Knobs) -> RunO
                         Some(&i) => Ev::Complete(i, Outcome::Ignorable),
                         None => Ev::Tick,
                     },
-                    Some(_) => match running.last() {
+                    Some(2) => match running.last() {
                         Some(&i) => Ev::Complete(i, Outcome::Exhausted),
                         None => Ev::Tick,
                     },
+                    // (for huge max counts) three ticks, then the newest execution reports an exhausted plan, then the
+                    // rest fail with ignorable errors, oldest first
+                    Some(3) => {
+                        if n_started < 4 && tick_ok && !model.exhausted_seen {
+                            Ev::Tick
+                        } else if !model.exhausted_seen {
+                            Ev::Complete(*running.last().expect("running"), Outcome::Exhausted)
+                        } else {
+                            match running.first() {
+                                Some(&i) => Ev::Complete(i, Outcome::Ignorable),
+                                None => Ev::Tick,
+                            }
+                        }
+                    }
+                    // two ticks, then the first execution succeeds
+                    Some(_) => {
+                        if n_started < 3 && tick_ok {
+                            Ev::Tick
+                        } else {
+                            Ev::Complete(running[0], Outcome::Success)
+                        }
+                    }
                 };
                 out.events += 1;
                 out.trace.push(format!("{ev:?}"));
@@ -311,7 +344,7 @@ fn one_execution_k(m: usize, ties: bool, ch: &mut Chooser, knobs: Knobs) -> RunO
 }
 
 fn case_json_k(m: usize, knobs: Knobs) -> Value {
-    json!({"leg":"spec-loop","max_speculative":m,"ties":false,"zero_interval":knobs.zero,"fixed":knobs.fixed,"choices":[]})
+    json!({"leg":"spec-loop","max_speculative":m,"ties":false,"zero_interval":knobs.zero,"fixed":knobs.fixed,"far_interval_secs":knobs.far.map(|d| d.as_secs()),"far_interval_nanos":knobs.far.map(|d| d.subsec_nanos()),"choices":[]})
 }
 
 fn case_json(m: usize, ties: bool, choices: &[usize]) -> Value {
@@ -329,7 +362,7 @@ fn main() {
         let ties = case["ties"].as_bool().unwrap_or(false);
         let choices: Vec<usize> = case["choices"].as_array().map(|a| a.iter().map(|v| v.as_u64().unwrap_or(0) as usize).collect()).unwrap_or_default();
         let mut ch = Chooser::new(choices);
-        let knobs = Knobs { zero: case["zero_interval"].as_bool().unwrap_or(false), fixed: case["fixed"].as_u64().map(|x| x as usize) };
+        let knobs = Knobs { zero: case["zero_interval"].as_bool().unwrap_or(false), fixed: case["fixed"].as_u64().map(|x| x as usize), far: case["far_interval_secs"].as_u64().map(|s| Duration::new(s, case["far_interval_nanos"].as_u64().unwrap_or(0) as u32)) };
         let out = one_execution_k(m, ties, &mut ch, knobs);
         if let Some(d) = &ch.diverged {
             vcore::machinery_error(&format!("the recorded schedule does not fit this build: {d}"));
@@ -356,7 +389,7 @@ fn main() {
     // retry interval 0 (what a percentile-based policy yields on an idle histogram): every order of completions
     sweeps.extend((0..=4).map(|m| (m, false, true)));
     for (m, ties, zero) in sweeps {
-        let knobs = Knobs { zero, fixed: None };
+        let knobs = Knobs { zero, fixed: None, far: None };
         let states = AtomicU64::new(0);
         let transitions = AtomicU64::new(0);
         let audited = AtomicU64::new(0);
@@ -439,7 +472,7 @@ fn main() {
     for m in [64usize, 1099] {
         for c in 0..3 {
             for zero in [false, true] {
-                let knobs = Knobs { zero, fixed: Some(c) };
+                let knobs = Knobs { zero, fixed: Some(c), far: None };
                 let out = one_execution_k(m, false, &mut Chooser::new(vec![]), knobs);
                 r.eval(1);
                 r.states.fetch_add(out.events as u64 + 1, Ordering::Relaxed);
@@ -452,6 +485,38 @@ fn main() {
             }
         }
     }
+    // ---- extreme configurations (a handful of fixed schedules each): huge max counts ("unlimited, bounded by the plan")
+    // and retry intervals whose deadline overflows. A panic inside the driver is a violation like any other.
+    for m in [usize::MAX, usize::MAX - 1, u32::MAX as usize, 1usize << 40] {
+        // (schedules that end through an exhausted plan or a success: with an unbounded count nothing else ends the call)
+        for c in [3usize, 4, 2] {
+            let knobs = Knobs { zero: false, fixed: Some(c), far: None };
+            let out = one_execution_k(m, false, &mut Chooser::new(vec![]), knobs);
+            r.eval(1);
+            r.states.fetch_add(out.events as u64 + 1, Ordering::Relaxed);
+            r.transitions.fetch_add(out.events as u64, Ordering::Relaxed);
+            r.counters.add("extreme_max_schedules", 1);
+            if let Some((k, t)) = out.verdict {
+                r.violation(&k, &format!("{t} | max_speculative={m} continuation={c}"), case_json_k(m, knobs));
+            }
+        }
+    }
+    for far in [Duration::MAX, Duration::from_secs(u64::MAX), Duration::from_secs(u64::MAX / 2), Duration::from_secs(1 << 40), Duration::new(i64::MAX as u64, 999_999_999)] {
+        for m in [0usize, 1, 4, usize::MAX] {
+            for c in [1usize, 2, 4] {
+                let knobs = Knobs { zero: false, fixed: Some(c), far: Some(far) };
+                let out = one_execution_k(m, false, &mut Chooser::new(vec![]), knobs);
+                r.eval(1);
+                r.states.fetch_add(out.events as u64 + 1, Ordering::Relaxed);
+                r.transitions.fetch_add(out.events as u64, Ordering::Relaxed);
+                r.counters.add("far_interval_schedules", 1);
+                r.counters.add(&format!("far_interval_result:{}", out.result_kind), 1);
+                if let Some((k, t)) = out.verdict {
+                    r.violation(&k, &format!("{t} | max_speculative={m} retry_interval={far:?} continuation={c}"), case_json_k(m, knobs));
+                }
+            }
+        }
+    }
     let oc = outcomes.into_inner().unwrap();
     r.counters.add("distinct_outcomes(max,result,started)", oc.len() as u64);
     for kind in ["success", "definitive-error", "last-ignorable-error", "empty-plan"] {
@@ -460,7 +525,7 @@ fn main() {
     if oc.len() < 8 && r.violation_count() == 0 {
         vcore::machinery_error("vacuity: fewer than 8 distinct (max, result kind, started) outcomes");
     }
-    r.set_rule("E-ASYNC, full enumeration (no deviation bound): max speculative count 0..=4 (<= 5 executions; 0..=5 in the thorough tier) x every sequence of events {complete(i, success|definitive|ignorable|plan-exhausted), timer tick} with polling to quiescence after each; second sweep adds timer/completion ties; third sweep: retry interval 0 (max 0..=4, all completion orders); plus 12 long fixed schedules with 65 and 1100 executions. evaluations = complete schedules; states = choice points + terminal states of the schedule tree, transitions = alternatives at those points; traces_validated = schedules re-executed from their recorded choices with an identical observation trace (1-in-k deterministic subset + 2x per violation). distinct_nontrivial = schedules with a tick while an execution was running AND an ignorable completion (timer re-arm and last-error bookkeeping both in play).");
+    r.set_rule("E-ASYNC, full enumeration (no deviation bound): max speculative count 0..=4 (<= 5 executions; 0..=5 in the thorough tier) x every sequence of events {complete(i, success|definitive|ignorable|plan-exhausted), timer tick} with polling to quiescence after each; second sweep adds timer/completion ties; third sweep: retry interval 0 (max 0..=4, all completion orders); plus 12 long fixed schedules with 65 and 1100 executions, 12 fixed schedules with max count usize::MAX / usize::MAX-1 / u32::MAX / 2^40 and 60 with retry intervals Duration::MAX .. 2^40 s (no expiry can be delivered: a call left waiting for that timer while an execution may still be started is accepted). evaluations = complete schedules; states = choice points + terminal states of the schedule tree, transitions = alternatives at those points; traces_validated = schedules re-executed from their recorded choices with an identical observation trace (1-in-k deterministic subset + 2x per violation). distinct_nontrivial = schedules with a tick while an execution was running AND an ignorable completion (timer re-arm and last-error bookkeeping both in play).");
     r.set_exhaustive(!capped);
     r.note("executions_total", json!(total_exec));
     r.note("retry_interval_ms", json!(INTERVAL.as_millis() as u64));
